@@ -40,6 +40,8 @@ import (
 // transactions and a scripted fake engine.  Every block is decomposed, for the model, into the same
 // operation vocabulary as layer K: a.blockstart, hook.lock.begin, tx.ethblock, tx.*, a.end.
 type appStream struct {
+	lastProp      string // relayer proposer seen when the previous transaction was signed
+	formerProp    string // the proposer before the last election (still a member, no longer entitled to send)
 	forceExpiring bool // signRelayerTx: sign as the proposer with timeout height = last committed height
 	forcePlain    bool // signRelayerTx: sign as the proposer, no defect of any kind
 	deadHalts int // consecutive blocks that failed without a scripted engine fault
@@ -330,11 +332,20 @@ func (s *appStream) signRelayerTx(r *tr.Rng, o *tr.Op, height int64, seqUsed map
 	o = &tr.Op{Cls: o.Cls, Kind: o.Kind, Args: kept}
 	v := s.rel.view()
 	prop := s.members[v.rel.Proposer]
+	if s.lastProp != "" && s.lastProp != v.rel.Proposer {
+		s.formerProp = s.lastProp
+	}
+	s.lastProp = v.rel.Proposer
 	var priv cryptotypes.PrivKey = prop.Acc
 	signerAddr := prop.Addr
 	cls := ""
 	guardy := s.profile == "app-guard"
 	switch c := r.Intn(100); {
+	case c >= 88 && guardy && s.formerProp != "" && s.formerProp != v.rel.Proposer && s.members[s.formerProp] != nil && !s.forceExpiring && !s.forcePlain:
+		// the proposer of the previous epoch: its message names itself and is validly signed, but it is not the CURRENT proposer
+		m := s.members[s.formerProp]
+		priv, signerAddr, cls = m.Acc, m.Addr, "/signer=former-proposer"
+		o.Set("proposer", m.Addr)
 	case c < pick(guardy, 20, 4) && len(v.rel.Voters) > 0:
 		m := s.members[v.rel.Voters[r.Intn(len(v.rel.Voters))]]
 		if m != nil {
